@@ -99,11 +99,36 @@ func c41StreamIDs() (uint8, uint32, uint64) {
 // c41Encode runs the sending gateway: all packets are handed to the encoder, the encoder is closed,
 // and frames are read until Read reports the end. Returns copies of the frames.
 func c41Encode(e *encoder, pkts [][]byte) [][]byte {
-	for _, p := range pkts {
+	return c41EncodeSplit(e, pkts, 0)
+}
+
+// c41EncodeSplit: as c41Encode, but the writer has handed over only the first split packets when the
+// sender goroutine starts reading: the sender then finds the ring empty in the middle of a frame
+// and flushes a partly filled frame (the n == 0 exit of encoder.Read); the remaining packets arrive
+// afterwards. The harness calls Read only when it cannot block for ever: at least one of the first
+// split packets is valid, or a partly copied packet is pending.
+func c41EncodeSplit(e *encoder, pkts [][]byte, split int) [][]byte {
+	var frames [][]byte
+	for _, p := range pkts[:split] {
+		e.Write(p)
+	}
+	if split > 0 {
+		some := false
+		for _, p := range pkts[:split] {
+			v := c41Valid(p)
+			some = some || v
+		}
+		verif.Assume(some)
+		frames = append(frames, append([]byte(nil), e.Read()...))
+		for k := 0; k < 8 && len(e.pkt) > 0; k++ {
+			frames = append(frames, append([]byte(nil), e.Read()...))
+		}
+		verif.Cover("early-flush")
+	}
+	for _, p := range pkts[split:] {
 		e.Write(p)
 	}
 	e.Close()
-	var frames [][]byte
 	done := false
 	for i := 0; i < 64 && !done; i++ {
 		f := e.Read()
@@ -151,7 +176,7 @@ func VerifC41Stream() {
 
 	e := newEncoder(sess, stream, uint16(mtu))
 	e.seq = seq0
-	frames := c41Encode(e, pkts)
+	frames := c41EncodeSplit(e, pkts, verif.Param("split"))
 
 	// reference: the valid packets, in order
 	var want [][]byte
